@@ -342,6 +342,90 @@ func c06BackPressure(n, m int, b Bounds) *Scenario {
 	}
 }
 
+// c06ReleaseRace: N gated calls occupy every slot; then N more calls arrive WHILE the running ones are
+// released (no quiescent point in between), so releases can land in the window in which a newcomer has
+// seen "no slot" but is not parked yet. Afterwards every call must have run.
+func c06ReleaseRace(n int, b Bounds) *Scenario {
+	var tokens []string
+	for i := 0; i < 2*n; i++ {
+		tokens = append(tokens, "g") // the newcomers are gated too: they must all be RUNNING at the next quiescent point
+	}
+	return &Scenario{
+		Name:   fmt.Sprintf("release-racing-arrival N=%d {%s}", n, tokensName(tokens)),
+		Params: map[string]any{"limit": n},
+		Bounds: b,
+		New: func() *Instance {
+			h := &seqHarness{msgs: buildSeq(tokens), gates: NewGates()}
+			body := func() {
+				lib, peer, _ := NewPipe(PipeOpts{Name: "srv", CloseUnblocksRecv: true})
+				srv := jrpc2.NewServer(anyAssigner{h.handler()}, &jrpc2.ServerOptions{Concurrency: n})
+				srv.Start(lib)
+				vs.GoNamed("controller", func() {
+					for i := 0; i < n; i++ {
+						peer.Send([]byte(h.msgs[i].JSON))
+					}
+					vs.AwaitQuiescence()
+					vs.Note("quiet", "slots-full")
+					var j Join
+					j.Go("arrivals", func() {
+						for i := n; i < 2*n; i++ {
+							peer.Send([]byte(h.msgs[i].JSON))
+						}
+					})
+					j.Go("releases", func() {
+						for i := 0; i < n; i++ {
+							h.gates.Open(h.msgs[i].Members[0].Method)
+						}
+					})
+					j.Wait()
+					vs.AwaitQuiescence()
+					vs.Note("quiet", "after-race")
+					for i := n; i < 2*n; i++ {
+						h.gates.Open(h.msgs[i].Members[0].Method)
+					}
+					vs.AwaitQuiescence()
+					vs.Note("quiet", "final")
+					peer.Close()
+				})
+				srv.WaitStatus()
+			}
+			check := func(x *vs.Exec) []Viol {
+				v := genericRules(x, nil)
+				if x.Outcome != "ok" {
+					return v
+				}
+				entered, exited := 0, 0
+				for _, e := range x.Log {
+					switch e.K {
+					case "h_enter":
+						entered++
+						if entered-exited > n {
+							v = append(v, Viol{"C06.R1", fmt.Sprintf("%d handlers executing with Concurrency %d", entered-exited, n)})
+						}
+					case "h_exit":
+						exited++
+					case "quiet":
+						if e.Arg(0) == "after-race" {
+							Hit("C06.R2")
+							if running := entered - exited; running != n {
+								v = append(v, Viol{"C06.R2", fmt.Sprintf("after %d releases raced with %d arrivals, %d handlers are executing although %d calls are dispatched and unfinished (limit %d): a waiting request was not woken", n, n, running, 2*n-exited, n)})
+							}
+						}
+						if e.Arg(0) == "final" {
+							Hit("C06.R2")
+							if entered != 2*n {
+								v = append(v, Viol{"C06.R2", fmt.Sprintf("at the final quiescent point no handler is executing, yet %d dispatched call(s) never started (limit %d): a waiting request was not woken", 2*n-entered, n)})
+							}
+						}
+					}
+				}
+				return v
+			}
+			return &Instance{Body: body, Check: check}
+		},
+	}
+}
+
 func c06Scenarios(tier string) []*Scenario {
 	var out []*Scenario
 	maxN, b := 2, Bounds{2, -1, 0}
@@ -367,6 +451,11 @@ func c06Scenarios(tier string) []*Scenario {
 		out = append(out, c06Gated(n, 2, false, true, n, Bounds{b.P - 1, -1, 0}))
 	}
 	out = append(out, c06Cancel(true, b), c06Cancel(false, b))
+	if tier == "quick" {
+		out = append(out, c06ReleaseRace(1, Bounds{2, 2, 0}), c06ReleaseRace(2, Bounds{2, 1, 0}))
+	} else {
+		out = append(out, c06ReleaseRace(1, Bounds{3, 2, 0}), c06ReleaseRace(2, Bounds{2, 2, 0}), c06ReleaseRace(2, Bounds{3, 1, 0}))
+	}
 	if tier == "quick" {
 		out = append(out, c06BackPressure(1, 2, Bounds{2, -1, 0}), c06BackPressure(2, 2, Bounds{1, 2, 0}))
 	} else {
